@@ -273,7 +273,7 @@ func ExecOp(op *core.Op) *core.Obs {
 	}
 	setLevel(op.Level)
 	if op.Trace {
-		startTrace(op.Count)
+		startTrace(op.Count, len(op.Data))
 	}
 	s0 := stdSize()
 	var m0, m1 runtime.MemStats
